@@ -1,21 +1,416 @@
 //! C05 — lazy || && ?: match, absorption rules, one truthiness.
-use crate::facets::pipe::{queue_ast, queue_bytecode, queue_exec};
+use crate::api::{compile, exec_full, literal, UserFn};
+use crate::facets::pipe::{queue_bytecode, queue_exec};
 use crate::facets::vmrun::generate;
+use crate::pool;
 use crate::report::{Pending, Report};
+use crate::rng::Rng;
+use crate::wire::{l1, show_val};
 use crate::Opts;
+use rscel::CelValue;
 use serde_json::json;
 
+/// Outcome of the reference evaluation: a value or "fails".
+#[derive(Clone, Debug)]
+enum V {
+    Ok(CelValue),
+    Fail,
+}
+
+#[derive(Clone)]
+enum T {
+    Atom(usize, bool), // atom index, wrapped in tick()
+    Or(Box<T>, Box<T>),
+    And(Box<T>, Box<T>),
+    Tern(Box<T>, Box<T>, Box<T>),
+    Not(Box<T>),
+    Match(Box<T>, Vec<(Pat, T)>),
+}
+
+#[derive(Clone)]
+enum Pat {
+    Any,
+    EqInt(i64),
+    TyInt,
+    TyString,
+}
+
+struct Atom {
+    lit: &'static str, // literal spelling
+    var: &'static str, // variable name (bound to the value, or unbound / failing expression)
+    val: V,
+}
+
+/// The property's truthiness table, written independently of the implementation.
+fn truthy(v: &CelValue) -> bool {
+    match v {
+        CelValue::Int(i) => *i != 0,
+        CelValue::UInt(u) => *u != 0,
+        CelValue::Float(f) => *f != 0.0,
+        CelValue::Bool(b) => *b,
+        CelValue::String(s) => !s.is_empty(),
+        CelValue::Bytes(b) => b.len() != 0,
+        CelValue::List(l) => !l.is_empty(),
+        CelValue::Map(m) => !m.is_empty(),
+        CelValue::Null => false,
+        CelValue::Type(_) | CelValue::TimeStamp(_) | CelValue::Duration(_) => true,
+        _ => false,
+    }
+}
+
+fn atoms() -> Vec<Atom> {
+    vec![
+        Atom { lit: "1", var: "a1", val: V::Ok(CelValue::Int(1)) },
+        Atom { lit: "0", var: "a0", val: V::Ok(CelValue::Int(0)) },
+        Atom { lit: "'a'", var: "as", val: V::Ok(CelValue::String("a".into())) },
+        Atom { lit: "''", var: "ae", val: V::Ok(CelValue::String("".into())) },
+        Atom { lit: "(1/0)", var: "(1/az)", val: V::Fail },
+        Atom { lit: "qq", var: "qq", val: V::Fail }, // unbound
+        Atom { lit: "true", var: "at", val: V::Ok(CelValue::Bool(true)) },
+        Atom { lit: "null", var: "an", val: V::Ok(CelValue::Null) },
+    ]
+}
+
+fn bindings() -> Vec<(String, CelValue)> {
+    vec![
+        ("a1".into(), CelValue::Int(1)),
+        ("a0".into(), CelValue::Int(0)),
+        ("as".into(), CelValue::String("a".into())),
+        ("ae".into(), CelValue::String("".into())),
+        ("az".into(), CelValue::Int(0)),
+        ("at".into(), CelValue::Bool(true)),
+        ("an".into(), CelValue::Null),
+    ]
+}
+
+fn render(t: &T, at: &[Atom], bound: bool) -> String {
+    match t {
+        T::Atom(i, tick) => {
+            let s = if bound { at[*i].var } else { at[*i].lit };
+            if *tick {
+                format!("tick({})", s)
+            } else {
+                s.to_string()
+            }
+        }
+        T::Or(a, b) => format!("({} || {})", render(a, at, bound), render(b, at, bound)),
+        T::And(a, b) => format!("({} && {})", render(a, at, bound), render(b, at, bound)),
+        T::Tern(c, x, y) => format!("({} ? {} : {})", render(c, at, bound), render(x, at, bound), render(y, at, bound)),
+        T::Not(a) => format!("!{}", render(a, at, bound)),
+        T::Match(s, cases) => {
+            let cs: Vec<String> = cases
+                .iter()
+                .map(|(p, e)| {
+                    let ps = match p {
+                        Pat::Any => "_".to_string(),
+                        Pat::EqInt(k) => format!("== {}", k),
+                        Pat::TyInt => "int".to_string(),
+                        Pat::TyString => "string".to_string(),
+                    };
+                    format!("case {}: {}", ps, render(e, at, bound))
+                })
+                .collect();
+            format!("(match {} {{ {} }})", render(s, at, bound), cs.join(", "))
+        }
+    }
+}
+
+/// Reference semantics straight from the property text; `log` collects tick() calls in order.
+fn eval(t: &T, at: &[Atom], log: &mut Vec<String>) -> V {
+    match t {
+        T::Atom(i, tick) => {
+            let v = at[*i].val.clone();
+            if *tick {
+                match &v {
+                    // a failing argument never reaches the function
+                    V::Fail => V::Fail,
+                    V::Ok(x) => {
+                        log.push(format!("7469636b n l:1 {}", show_val(x)));
+                        v
+                    }
+                }
+            } else {
+                v
+            }
+        }
+        T::Or(a, b) => {
+            let va = eval(a, at, log);
+            if let V::Ok(x) = &va {
+                if truthy(x) {
+                    return V::Ok(CelValue::Bool(true));
+                }
+            }
+            let vb = eval(b, at, log);
+            match (&va, &vb) {
+                (_, V::Ok(y)) if truthy(y) => V::Ok(CelValue::Bool(true)),
+                (V::Fail, _) => V::Fail,
+                (_, V::Fail) => V::Fail,
+                _ => V::Ok(CelValue::Bool(false)),
+            }
+        }
+        T::And(a, b) => {
+            let va = eval(a, at, log);
+            match &va {
+                V::Fail => return V::Fail,
+                V::Ok(x) if !truthy(x) => return V::Ok(CelValue::Bool(false)),
+                _ => {}
+            }
+            match eval(b, at, log) {
+                V::Fail => V::Fail,
+                V::Ok(y) => V::Ok(CelValue::Bool(truthy(&y))),
+            }
+        }
+        T::Tern(c, x, y) => match eval(c, at, log) {
+            V::Fail => V::Fail,
+            V::Ok(v) => {
+                if truthy(&v) {
+                    eval(x, at, log)
+                } else {
+                    eval(y, at, log)
+                }
+            }
+        },
+        T::Not(a) => match eval(a, at, log) {
+            V::Fail => V::Fail,
+            V::Ok(v) => V::Ok(CelValue::Bool(!truthy(&v))),
+        },
+        T::Match(s, cases) => {
+            let vs = match eval(s, at, log) {
+                V::Fail => return V::Fail, // not fixed by the property; such trees are not generated
+                V::Ok(v) => v,
+            };
+            for (p, e) in cases {
+                let hit = match p {
+                    Pat::Any => true,
+                    // `== k` is the language's equality: numbers (and bool as 0/1) compare by value
+                    Pat::EqInt(k) => match &vs {
+                        CelValue::Int(i) => i == k,
+                        CelValue::UInt(u) => *u as i128 == *k as i128,
+                        CelValue::Bool(b) => (*b as i64) == *k,
+                        CelValue::Float(f) => *f == *k as f64,
+                        _ => false,
+                    },
+                    Pat::TyInt => matches!(&vs, CelValue::Int(_)),
+                    Pat::TyString => matches!(&vs, CelValue::String(_)),
+                };
+                if hit {
+                    return eval(e, at, log);
+                }
+            }
+            V::Ok(CelValue::Null)
+        }
+    }
+}
+
+fn scrut_ok(t: &T, at: &[Atom]) -> bool {
+    // match scrutinee must not fail (the property does not fix that case)
+    match t {
+        T::Match(s, cases) => {
+            let mut l = Vec::new();
+            !matches!(eval(s, at, &mut l), V::Fail) && scrut_ok(s, at) && cases.iter().all(|(_, e)| scrut_ok(e, at))
+        }
+        T::Atom(..) => true,
+        T::Or(a, b) | T::And(a, b) => scrut_ok(a, at) && scrut_ok(b, at),
+        T::Tern(a, b, c) => scrut_ok(a, at) && scrut_ok(b, at) && scrut_ok(c, at),
+        T::Not(a) => scrut_ok(a, at),
+    }
+}
+
+fn leaves(n_atoms: usize) -> Vec<T> {
+    let mut v = Vec::new();
+    for i in 0..n_atoms {
+        v.push(T::Atom(i, false));
+        v.push(T::Atom(i, true));
+    }
+    v
+}
+
+/// all trees with exactly `ops` operator nodes over the leaf set
+fn trees(ops: usize, lv: &[T], memo: &mut Vec<Option<Vec<T>>>) -> Vec<T> {
+    if let Some(Some(x)) = memo.get(ops) {
+        return x.clone();
+    }
+    let out = if ops == 0 {
+        lv.to_vec()
+    } else {
+        let mut out = Vec::new();
+        // unary
+        for a in trees(ops - 1, lv, memo) {
+            out.push(T::Not(Box::new(a)));
+        }
+        // binary
+        for k in 0..ops {
+            let l = trees(k, lv, memo);
+            let r = trees(ops - 1 - k, lv, memo);
+            for a in l.iter() {
+                for b in r.iter() {
+                    out.push(T::Or(Box::new(a.clone()), Box::new(b.clone())));
+                    out.push(T::And(Box::new(a.clone()), Box::new(b.clone())));
+                }
+            }
+        }
+        // ternary and match (only with leaf sub-trees beyond the first, to bound the count)
+        for c in trees(ops - 1, lv, memo) {
+            for x in lv.iter().step_by(3) {
+                for y in lv.iter().skip(1).step_by(3) {
+                    out.push(T::Tern(Box::new(c.clone()), Box::new(x.clone()), Box::new(y.clone())));
+                }
+            }
+            out.push(T::Match(
+                Box::new(c.clone()),
+                vec![(Pat::EqInt(1), lv[1].clone()), (Pat::TyString, lv[3].clone()), (Pat::TyInt, lv[9].clone())],
+            ));
+            out.push(T::Match(Box::new(c.clone()), vec![(Pat::EqInt(7), lv[1].clone()), (Pat::Any, lv[5].clone())]));
+        }
+        out
+    };
+    while memo.len() <= ops {
+        memo.push(None);
+    }
+    memo[ops] = Some(out.clone());
+    out
+}
+
+fn check_tree(rep: &mut Report, pending: &mut Vec<Pending>, t: &T, at: &[Atom], to_model: bool) {
+    if !scrut_ok(t, at) {
+        return;
+    }
+    let users = vec![("tick".to_string(), UserFn::Arg0)];
+    let mut log = Vec::new();
+    let want = eval(t, at, &mut log);
+    let want_obs = match &want {
+        V::Ok(v) => show_val(v),
+        V::Fail => "E".to_string(),
+    };
+    let want_log = format!("L:{}{}{}", log.len(), if log.is_empty() { "" } else { " " }, log.join(" "));
+    for bound in [false, true] {
+        let src = render(t, at, bound);
+        let binds = if bound { bindings() } else { Vec::new() };
+        let out = match compile(&src) {
+            Ok(p) => exec_full(&[("main".to_string(), p)], "main", &binds, &users),
+            Err(e) => crate::api::ExecOut { obs: e, log: "L:0".into() },
+        };
+        rep.count(Some(&src));
+        rep.bump(if bound { "form:bound" } else { "form:literal" });
+        rep.bump(&format!("expected:{}", if want_obs == "E" { "fails" } else { "value" }));
+        rep.sample(json!({"src": src, "impl": out.obs, "log": out.log, "expected": want_obs, "expected_log": want_log}));
+        if l1(&out.obs) != want_obs || out.log != want_log {
+            rep.oracle_fail(
+                &src,
+                &format!("{} {}", out.obs, out.log),
+                &format!("{} {}", want_obs, want_log),
+                "value or call log differs from the lazy / absorbing semantics of the property (an operand that must not be evaluated was, or a failure was mishandled)",
+            );
+        }
+        if to_model {
+            pending.push(Pending {
+                request: format!("exec {} {}", crate::api::env_wire(&[], &binds, &users), crate::wire::hex(src.as_bytes())),
+                implementation: format!("{} {}", out.obs, out.log),
+                level: 3,
+                input: src.clone(),
+            });
+        }
+    }
+}
+
+/// one truthiness: every place that tests a value agrees with the table
+fn truthiness_everywhere(rep: &mut Report, pending: &mut Vec<Pending>) {
+    let forms: [(&str, bool); 10] = [
+        ("(X ? true : false)", true),
+        ("!X", false),
+        ("(X || false)", true),
+        ("(X && true)", true),
+        ("bool(X)", true),
+        ("[X].all(v, v)", true),
+        ("[X].exists(v, v)", true),
+        ("[X].exists_one(v, v)", true),
+        ("([X].filter(v, v) != [])", true),
+        ("([X].map(v, v, 1) == [1])", true),
+    ];
+    for v in pool::all_values().iter() {
+        if matches!(v, CelValue::Err(_)) {
+            continue;
+        }
+        let want = truthy(v);
+        for (form, positive) in forms.iter() {
+            for bound in [false, true] {
+                let (src, binds) = if bound {
+                    (form.replace('X', "xv"), vec![("xv".to_string(), v.clone())])
+                } else {
+                    match literal(v) {
+                        Some(l) => (form.replace('X', &l), vec![]),
+                        None => continue,
+                    }
+                };
+                let out = crate::api::exec_src(&src, &binds);
+                rep.count(Some(&format!("{}|{}", src, show_val(v))));
+                rep.bump("truthiness");
+                // bool('...') parses boolean words first; those strings are excluded from the bool() form
+                if form.starts_with("bool") {
+                    if let CelValue::String(s) = v {
+                        if ["1", "t", "true", "TRUE", "True", "0", "f", "false", "FALSE", "False"].contains(&s.as_str()) {
+                            continue;
+                        }
+                    }
+                }
+                let expect = if want == *positive { "b:1" } else { "b:0" };
+                if out != expect {
+                    rep.oracle_fail(&format!("{} with X = {}", src, show_val(v)), &out, expect, "truthiness differs from the table in this position");
+                }
+                pending.push(Pending {
+                    request: format!("exec {} {}", crate::api::env_wire(&[], &binds, &[]), crate::wire::hex(src.as_bytes())),
+                    implementation: format!("{} L:0", out),
+                    level: 3,
+                    input: format!("{} with X = {}", src, show_val(v)),
+                });
+            }
+        }
+    }
+}
+
 pub fn run(opts: &Opts) -> Report {
-    let mut rep = Report::new("C05", "generated programs: model pipeline (lexer, parser, compiler, VM) vs real pipeline: AST, bytecode, result + call log");
+    let mut rep = Report::new(
+        "C05",
+        "all trees with up to 2 (quick) / 3 (thorough, sampled above 2) operator nodes over {||, &&, ?:, !, match} and 8 atoms (truthy, falsy, failing, unbound, each also call-counting via tick()), each as literals (compile-time folder) and as bound variables (VM), checked against a reference evaluator of the property text (value + call log) and against the model; truthiness of every pool value in 10 positions; plus random generated programs through model and real pipeline; non-trivial = distinct source text",
+    );
     let mut pending: Vec<Pending> = Vec::new();
-    let n = if opts.thorough { 60_000 } else { 4_000 };
+    let at = atoms();
+    let lv = leaves(at.len());
+    let mut memo = Vec::new();
+    for ops in 0..=2 {
+        let ts = trees(ops, &lv, &mut memo);
+        rep.bump(&format!("trees_with_{}_ops:{}", ops, ts.len()));
+        for (i, t) in ts.iter().enumerate() {
+            check_tree(&mut rep, &mut pending, t, &at, ops < 2 || i % 7 == 0);
+        }
+    }
+    rep.exhaustive = true;
+    // sampled larger trees
+    let mut rng = Rng::new(opts.seed ^ 0xC05);
+    let n3 = if opts.thorough { 150_000 } else { 6_000 };
+    let t2 = trees(2, &lv, &mut memo);
+    let t1 = trees(1, &lv, &mut memo);
+    for _ in 0..n3 {
+        let a = rng.pick(&t2).clone();
+        let b = rng.pick(&t1).clone();
+        let c = rng.pick(&lv).clone();
+        let t = match rng.below(5) {
+            0 => T::Or(Box::new(a), Box::new(b)),
+            1 => T::And(Box::new(b), Box::new(a)),
+            2 => T::Tern(Box::new(a), Box::new(b), Box::new(c)),
+            3 => T::Tern(Box::new(c), Box::new(a), Box::new(b)),
+            _ => T::Not(Box::new(T::Or(Box::new(b), Box::new(a)))),
+        };
+        check_tree(&mut rep, &mut pending, &t, &at, true);
+    }
+    truthiness_everywhere(&mut rep, &mut pending);
+    // generated programs through the whole model pipeline
+    let n = if opts.thorough { 40_000 } else { 2_500 };
     let cases = generate(opts, n, |_g| {});
     for c in cases.iter() {
-        queue_ast(&mut pending, &c.src);
         queue_bytecode(&mut pending, &c.src);
-        let out = queue_exec(&mut rep, &mut pending, &c.src, c.binds_variant);
+        queue_exec(&mut rep, &mut pending, &c.src, c.binds_variant);
         rep.count(Some(&format!("{}|{}", c.src, c.binds_variant)));
-        rep.sample(json!({"src": c.src, "impl": out}));
     }
     rep.compare_with_model(&opts.driver, &pending);
     rep
